@@ -43,7 +43,7 @@ func genReplCase(forProg bool, target int) func(t *rapid.T) replCase {
 		small.Length = 100 // the generators size programs by the length limit
 		n := 0
 		if forProg {
-			c.Prog, _ = gen.ForProgram(t, small)
+			c.Prog, _ = gen.ForProgram(t, c.Cfg) // counts may name the predefined constants: the configuration the text is assembled under
 		} else {
 			c.Prog = gen.Program(t, small)
 		}
